@@ -170,7 +170,7 @@ func runC13(r *R) {
 	if fn := r.NeedFn("C13-R1", "(*"+arv+".Collection).FileSystem"); fn != nil {
 		lm := CallsIn(fn, "(*"+arv+".dirnode).loadManifest")
 		for _, st := range StoresToField(fn, arv+".collectionFileSystem", "root") {
-			ok := len(lm) == 1 && lm[0].Block().Dominates(st.Block())
+			ok := len(lm) == 1 && Precedes(lm[0], st)
 			if ok {
 				g, _ := Guard(fn, lm[0].(ssa.Instruction), st, ErrNilC(lm[0]))
 				ok = g
@@ -432,7 +432,7 @@ func flushSwapRules(r *R, ruleSwap, ruleCOW string) {
 	if outer := r.NeedFn(ruleSwap, "(*"+arv+".filenode).pruneMemSegments"); outer != nil {
 		n := 0
 		fr := findFlushRoles(outer)
-		for _, cl := range Closures(outer) {
+		for _, cl := range ClosuresAndGoBodies(outer) {
 			for _, st := range segElemStores(cl) {
 				n++
 				ls := ComputeLocks(cl, lc, lkNone)
@@ -476,7 +476,7 @@ func flushSwapRules(r *R, ruleSwap, ruleCOW string) {
 	if outer := r.NeedFn(ruleSwap, "(*"+arv+".dirnode).commitBlock"); outer != nil {
 		n := 0
 		fr := findFlushRoles(outer)
-		for _, cl := range Closures(outer) {
+		for _, cl := range ClosuresAndGoBodies(outer) {
 			for _, st := range segElemStores(cl) {
 				n++
 				cut := CorrelatedCut(cl, st) // consistent valuations of the captured, never-written `sync`
@@ -591,7 +591,7 @@ func flushSwapRules(r *R, ruleSwap, ruleCOW string) {
 // lock (the spawning writer may hold that lock while it waits for a token).
 func throttleBeforeLockRule(r *R, rule string, outer *ssa.Function) {
 	lc := inodeLockClass(map[string]int{})
-	for _, cl := range Closures(outer) {
+	for _, cl := range ClosuresAndGoBodies(outer) {
 		rels := CallsIn(cl, "(*"+arv+".throttle).Release")
 		if len(rels) == 0 {
 			continue
